@@ -132,7 +132,7 @@ def redecoded_equal(ref, got, enc):
     if not enc or enc.lower().replace("_", "-") in ("utf-8", "utf8"):
         return False
 
-    def eq(a, b):
+    def eq(a, b, key=None):
         if isinstance(a, str) and isinstance(b, str):
             try:
                 t = a.encode("utf-8").decode(enc)
@@ -140,8 +140,12 @@ def redecoded_equal(ref, got, enc):
                 return False
             return b == t or b == t.translate(_C1)
         if isinstance(a, dict) and isinstance(b, dict):
-            return set(a) == set(b) and all(eq(a[k], b[k]) for k in a)
+            return set(a) == set(b) and all(eq(a[k], b[k], k) for k in a)
         if isinstance(a, list) and isinstance(b, list):
+            if key == "tags":
+                # tags are de-duplicated by value: a term that arrives once as element text (through pop(): C1 controls translated) and once as an attribute (not
+                # translated) is ONE tag in the reference and two different strings after the re-decoding -- the same mechanism, not a second defect
+                return all(any(eq(x, y) for x in a) for y in b) and all(any(eq(x, y) for y in b) for x in a)
             return len(a) == len(b) and all(eq(x, y) for x, y in zip(a, b))
         return a == b
     try:
